@@ -26,7 +26,7 @@ package tls
 // The supported_versions extension publishes its list unchanged as the hello's version list (the bytes on
 // the wire are produced from the same e.Versions by (*SupportedVersionsExtension).Read, verif_contracts_ext_b.go).
 //@ func (*SupportedVersionsExtension).writeToUConn
-//@   property C13
+//@   property C13 C03
 //@   requires e != nil && uc != nil && uc.HandshakeState.Hello != nil
 //@   modifies uc.HandshakeState.Hello.SupportedVersions
 //@   ensures ok: ret == nil
